@@ -7,7 +7,7 @@
    shared inputs, the race detector). *)
 From V.lib Require Import Base.
 From Coq Require Import String.
-From V.c20 Require Import C20Model C20Facts C20PkgVars C20Reach C20SchedProofs C20ApiProofs C20FactsProofs C20ReachProofs.
+From V.c20 Require Import C20Model C20Facts C20PkgVars C20Reach C20Alias C20AliasAudit C20SchedProofs C20ApiProofs C20FactsProofs C20ReachProofs C20AliasProofs.
 
 (* if every op of goroutine t writes only cells of t and reads only cells of t or shared read-only
    locations, then EVERY interleaving is race-free, gives each goroutine its sequential result and
@@ -85,6 +85,36 @@ Example C20_api_reach_instance :
   exists e, In e c20_api_reach /\ r_kind e = kind_of (ADecode (SIn 0) 0) /\
             vname_in ("mp4", "decoders")%string (r_reads e) = true /\ r_writes e = [].
 Proof. exact api_reach_instance. Qed.
+
+(* aliasing facts regenerated from /repo on every run (C20Alias.v): the SliceReader methods that return views of the
+   buffer, the functions with a SliceReader parameter whose result keeps such views (61 decoders), the exported functions
+   returning views of a []byte argument and the exported functions writing bytes reachable from an argument are all in
+   the audited lists (C20AliasAudit.v); every audited in-place mutator is an in-place operation of the table, every
+   audited append is the table's ATouch *)
+Theorem C20_alias_facts_ok :
+  forallb (fun s => str_in s audited_view_sources) c20_view_sources = true /\
+  forallb (fun k => str_in (fst k) audited_sr_keepers) c20_sr_keepers = true /\
+  forallb (fun v => str_in v audited_byte_views) c20_byte_views = true /\
+  forallb mutator_audited c20_mutators = true /\
+  forallb (fun a => class_ok (snd a)) audited_mutators = true.
+Proof. exact alias_facts_ok. Qed.
+Print Assumptions C20_alias_facts_ok.
+
+(* for all arguments, goroutines and aliasing states: an in-place operation writes the payload location of its operand and
+   inplace_ok is exactly ownership of that location; applied to a payload the goroutine does not own it writes a location
+   outside the goroutine (for a SliceReader view: the caller's input, findings F1-F9) *)
+Theorem C20_inplace_guard_exact :
+  forall a t st, kind_inplace (kind_of a) = true ->
+    (exists o, mem (pl t st o) (writes (api_op t st a)) = true /\ inplace_ok t st a = own t (pl t st o)) /\
+    (inplace_ok t st a = false -> exists l, own t l = false /\ mem l (writes (api_op t st a)) = true).
+Proof. exact (fun a t st H => conj (inplace_kinds_guarded a t st H) (inplace_on_input_writes_it a t st H)). Qed.
+Print Assumptions C20_inplace_guard_exact.
+
+Example C20_inplace_guard_instance :
+  kind_inplace (kind_of (ADecryptWith 2 (SObj 1))) = true /\
+  inplace_ok 1 [(2%nat, Input 4)] (ADecryptWith 2 (SObj 1)) = false /\
+  inplace_ok 1 [(2%nat, ownp 1 2)] (ADecryptWith 2 (SObj 1)) = true.
+Proof. repeat split. Qed.
 
 (* the footprint table: Reader-path programs, and SliceReader programs whose in-place operations
    only touch payloads the goroutine owns, satisfy the hypothesis of C20_schedule_independence *)
